@@ -92,7 +92,11 @@ class State:
         return s
 
     def key(self):
-        return (tuple(e._key for e in self.events), self.status, frozenset(self.facts.items()), self.ret)
+        # constant-valued locals drive later branch decisions, so they take part in the identity of a path;
+        # other aliases deliberately do not (path explosion, DESIGN §2.2)
+        consts = frozenset((k, v) for k, v in self.env.items()
+                           if v is not None and (v in ("None", "True", "False") or v[0] in "'\"0123456789-"))
+        return (tuple(e._key for e in self.events), self.status, frozenset(self.facts.items()), self.ret, consts)
 
 
 _parse_cache = {}
@@ -566,9 +570,10 @@ class Walker:
         for o in outs:
             if o.status in ("normal", "return"):
                 rv = o.ret if o.status == "return" else "None"
-                env2 = dict(o.env)
+                env2 = {k: v for k, v in o.env.items() if k[0] != nf.fid}      # callee locals die with the frame
                 env2[("call", id(call), frame.fid)] = rv
-                o2 = o.fork(status="normal", ret=None, env=env2)
+                facts2 = {a: v for a, v in o.facts.items() if not any(isinstance(x, str) and nf.tag in x for x in a[1:])}
+                o2 = o.fork(status="normal", ret=None, env=env2, facts=facts2)
                 o2 = self.emit(o2, Event("leave", call, frame, callee=nf.qual, meth=fn.name, value=rv))
                 res.append(o2)
             elif o.status == "raise":
